@@ -27,7 +27,98 @@ def context_of(case, sibling=True):
         twin.intension([case['o'][i]])        # touch it: lazily installed state would be installed now
         _SIBLINGS.append(twin)
         del _SIBLINGS[:-8]
+        prelude(context, twin, case)
     return context
+
+
+PRELUDE_COUNTS = {}
+
+
+def _prelude_calls():
+    import copy
+    import pickle
+    from concepts import algorithms
+
+    def definition_edit(c, t):
+        d = c.definition()
+        d.add_object('prelude-o', list(c.properties[:1]))
+        if c.properties:
+            d.remove_property(c.properties[-1])
+
+    def dict_edit(c, t):
+        d = c.todict()
+        d['objects'] = list(d['objects']) + ['prelude-o']
+        d['context'] = list(d['context'])
+        d['context'].append([])
+        if 'lattice' in d:
+            d['lattice'] = list(d['lattice'])[::-1]
+
+    def bools_edit(c, t):
+        b = c.bools
+        if isinstance(b, list):
+            b.reverse()
+
+    def half_iter(c, t):
+        it = iter(c.lattice)
+        next(it)
+        up = c.lattice.infimum.upset()
+        next(up)
+        g = algorithms.fast_generate_from(c)
+        next(g)
+
+    return [
+        ('lattice', lambda c, t: len(c.lattice)),
+        ('lattice-walk', lambda c, t: [(x.index, x.dindex, x.objects, x.properties, x.atoms) for x in c.lattice]),
+        ('todict', lambda c, t: c.todict()),
+        ('todict-nolattice', lambda c, t: c.todict(ignore_lattice=True)),
+        ('dict-edit', dict_edit),
+        ('tostring', lambda c, t: (c.tostring(), c.tostring(frmat='cxt'), str(c), repr(c))),
+        ('definition-edit', definition_edit),
+        ('relations', lambda c, t: str(c.relations(include_unary=True))),
+        ('neighbors', lambda c, t: (c.neighbors(c.objects[:1]), c.neighbors([], raw=True))),
+        ('lookup', lambda c, t: (c[list(c.objects[:1])], c[list(c.properties[:1])], c[()])),
+        ('derive', lambda c, t: (c.intension(c.objects), c.extension(c.properties),
+                                 c.intension([], raw=True), c.extension([], raw=True))),
+        ('pickle', lambda c, t: pickle.loads(pickle.dumps(c)).lattice),
+        ('deepcopy', lambda c, t: copy.deepcopy(c).lattice[0].upper_neighbors),
+        ('eq', lambda c, t: (c == t, c != t, c == copy.copy(c))),
+        ('numbers', lambda c, t: (c.crc32(), c.shape, c.fill_ratio)),
+        ('bools-edit', bools_edit),
+        ('half-iter', half_iter),
+        ('fcbo', lambda c, t: (list(algorithms.fast_generate_from(c)), list(algorithms.fcbo_dual(c)))),
+        ('graphviz', lambda c, t: c.lattice.graphviz().source),
+        ('join-meet', lambda c, t: (c.lattice.join([]), c.lattice.meet([]), c.lattice.supremum & c.lattice.infimum,
+                                    list(c.lattice.upset_union(c.lattice.atoms)))),
+        ('twin-lattice', lambda c, t: (len(t.lattice), t.lattice.graphviz().source, t.todict())),
+    ]
+
+
+_PRELUDE = None
+
+
+def prelude(context, twin, case):
+    """History before the checked queries: a case-derived choice of 0-3 OTHER public calls on the same context.
+
+    What a context answers may not depend on what it (or a context with equal labels) was asked before; values it
+    returned earlier may be modified by the caller.  Nothing is checked here and exceptions are swallowed - the
+    property checks that follow judge the library.  The choice is a pure function of the case, so replays repeat it.
+    """
+    global _PRELUDE
+    import random
+    import zlib
+    n, m = len(case['o']), len(case['p'])
+    if n * m > 900:
+        return
+    if _PRELUDE is None:
+        _PRELUDE = _prelude_calls()
+    rnd = random.Random(zlib.crc32(repr((case['o'], case['p'], case['r'])).encode()))
+    k = rnd.choice((0, 0, 0, 1, 2, 3))
+    for name, fn in rnd.sample(_PRELUDE, k):
+        PRELUDE_COUNTS[name] = PRELUDE_COUNTS.get(name, 0) + 1
+        try:
+            fn(context, twin)
+        except Exception:  # noqa: BLE001 - history only
+            PRELUDE_COUNTS['raised'] = PRELUDE_COUNTS.get('raised', 0) + 1
 
 
 class Maps:
